@@ -12,6 +12,7 @@ from vlib.harness import V, derive_seed, run_shards
 from vlib.lib import call, mod
 
 PROPERTY = 'C10'
+AMBIENT_PASS = True        # the same search once more under unusual ambient settings (vlib.run.AMBIENT_SETTINGS)
 RULE = ('codes generated from the syntax tree of PAT_EVENT_CODE (all alternatives; bulk seeded + Hypothesis share + '
         'from_regex), pairs of codes drawn within a family for the ordering clauses, and lists of 0-12 dicts/objects with '
         'present / None / missing / duplicate disciplines for the sorter; oracle = totality of discipline_sort_key, '
@@ -21,6 +22,7 @@ RULE = ('codes generated from the syntax tree of PAT_EVENT_CODE (all alternative
         'permutation, relay distance = legs x leg distance; non-trivial = an accepted code outside the ~30 codes of the unit '
         'tests that is not a bare number (named track codes, relays with suffixed legs, custom events, weight-specific '
         'throws, hurdle specs ...); distinct codes')
+RULE = RULE + "; the family of a code is read from its shape by the check's own patterns (independent of the library's family patterns); relay legs with any unit suffix as the caller writes it"
 ASSUMPTIONS = ['only comparisons whose expected direction is unambiguous are asserted (same suffix, same number of legs; bare '
                'SC/SH/LH/nMT only for totality)',
                'event_code_to_kind is only required to be total on the four families it names; elsewhere it may raise ValueError']
